@@ -697,7 +697,7 @@ pub fn run(ctx: &Ctx) -> ! {
          with a NUL or invalid UTF-8 byte (overwritten or appended) rejected; every id with another length byte rejected. \
          Non-trivial = non-empty encoding",
         case,
-        ctx.pick(30_000, 800_000),
+        ctx.pick(60_000, 600_000),
         check,
     );
     rep.explore(
@@ -706,7 +706,7 @@ pub fn run(ctx: &Ctx) -> ! {
          an accepted value matches the schema (independent conformance check: struct names/field sets, enum values in the \
          definition, no NUL) and survives serialize/deserialize. Non-trivial = input accepted",
         byte_case,
-        ctx.pick(60_000, 2_000_000),
+        ctx.pick(120_000, 1_200_000),
         check_bytes,
     );
     rep.finish()
